@@ -32,6 +32,8 @@ TRANSCRIBED = [
     ("tensordict/_td.py", "TensorDict", "__setitem__", "Td.setitem / setitemColl / collPlan"),
     ("tensordict/_td.py", "TensorDict", "_index_tensordict", "Td.indexTensordict / checkInvalidIndex"),
     ("tensordict/_td.py", "TensorDict", "_set_at_str", "Td.setitem (leaf call) / entryWriteK"),
+    ("tensordict/base.py", "TensorDictBase", "_check_new_batch_size", "Td.collPlan / childBatch (batch-size reassignment path of __setitem__)"),
+    ("tensordict/base.py", "TensorDictBase", "_batch_size_setter_checked", "Td.childBatch (a nested child with fewer batch dims grows)"),
     ("tensordict/_td.py", "_SubTensorDict", "__init__", "Td.subInit (index normalisation, batch size)"),
     ("tensordict/_td.py", "_SubTensorDict", "_set_str", "Td.entryWriteK (key missing from the destination) / Td.subSet"),
 ]
